@@ -2,7 +2,9 @@ CONSTANTS
   MaxLen = 3
   MaxVal = 2
   Export = TRUE
+  TableVariant = 1
 INIT Init
 NEXT Next
 INVARIANT Laws
 INVARIANT ExportOK
+INVARIANT ExportTable
